@@ -23,7 +23,7 @@ ASSUMPTIONS = ['secondary/supplementary alignments are outside the claim (not ge
                'mate number is only compared for pairs whose mates are both mapped to the same contig (the third-party mate iterator de-pairs the others)',
                'worker schedules are sampled: observed completion orders are counted, not enumerated']
 MIN_NONTRIVIAL = {'quick': 40, 'thorough': 1200}
-REQUIRED_MONITORS = ['history:same_path_reused', 'eject:interval_shrunk', 'lib:dense', 'lib:placed_unmapped_pairs', 'paths:rel', 'paths:dotrel', 'lib:secondary_or_supplementary', 'run:single_process', 'run:multiprocess', 'records:compared', 'jobs:observed', 'run:no_rejects', 'layout:large_after_small',
+REQUIRED_MONITORS = ['history:same_path_reused', 'eject:interval_shrunk', 'lib:dense', 'lib:placed_unmapped_pairs', 'layout:more_than_100_small_contigs', 'paths:rel', 'paths:dotrel', 'lib:secondary_or_supplementary', 'run:single_process', 'run:multiprocess', 'records:compared', 'jobs:observed', 'run:no_rejects', 'layout:large_after_small',
                      'layout:lone_small_contig', 'lib:unmapped_pairs', 'lib:half_mapped', 'lib:orphans']
 SHARD_TIMEOUT = {'quick': 900, 'thorough': 7200}
 
@@ -37,6 +37,9 @@ def contig_layout(r):
     """lengths around the small-contig threshold (100000) in random header order"""
     n = r.choice([1, 2, 2, 3, 4, 6, 9, 12])
     style = r.choice(['mixed', 'mixed', 'small_only', 'large_only', 'smalls_then_large', 'one_small'])
+    if MANY[0]:
+        # an assembly with many scaffolds: far more than a hundred small contigs with reads, plus one large contig
+        n, style = r.choice([105, 130, 210]), 'many_small'
     lens = []
     for j in range(n):
         if style == 'small_only' or (style == 'one_small'):
@@ -45,6 +48,8 @@ def contig_layout(r):
             lens.append(r.choice([100000, 100001, 150000]))
         elif style == 'smalls_then_large':
             lens.append(r.choice([5000, 30000]) if j < n - 1 or n == 1 else 120000)
+        elif style == 'many_small':
+            lens.append(r.choice([2500, 4000]) if j else 120000)
         else:
             lens.append(r.choice([3000, 20000, 99999, 100000, 130000]))
     if style == 'one_small':
@@ -57,12 +62,13 @@ def contig_layout(r):
 
 
 DENSE = [False]
+MANY = [False]
 PLACED = [0]
 
 
 def build_library(r, case_id, method):
     contigs, style = contig_layout(r)
-    with_reads = [c for c in contigs if r.random() < 0.8] or [contigs[0]]
+    with_reads = [c for c in contigs if r.random() < (0.8 if style != 'many_small' else 0.97)] or [contigs[0]]
     gen = F.Genome(r, contigs)
     recs, truths = [], {}
     rid = 1
@@ -71,7 +77,7 @@ def build_library(r, case_id, method):
     dense = r.random() < 0.25
     DENSE[0] = dense
     for name, ln in with_reads:
-        nsite = r.randint(1, 4)
+        nsite = r.randint(1, 4) if style != 'many_small' else 1
         is_dense_contig = dense and (name, ln) == with_reads[0] and ln > 4000
         if is_dense_contig:
             nsite = r.randint(30, 90)
@@ -194,13 +200,16 @@ def run_case(case):
     acc = Acc()
     r = rng(case['seed'], 'C05', case['i'])
     method = r.choice(['nla', 'nla', 'chic', 'qflag'])
+    MANY[0] = case['i'] % 32 == 5
+    acc.count('layout:more_than_100_small_contigs', 1 if MANY[0] else 0)
     gen, recs, truths, style, with_reads = build_library(r, case['i'] + 1, method)
+    MANY[0] = False
     acc.count('lib:dense', 1 if DENSE[0] else 0)
     acc.count('lib:placed_unmapped_pairs', PLACED[0])
     PLACED[0] = 0
     if not recs:
         return acc
-    multi = r.random() < 0.6
+    multi = r.random() < 0.6 or style == 'many_small'
     threads = r.randint(1, 4)
     no_rejects = method != 'qflag' and r.random() < 0.35
     delay_seed = r.randint(0, 10 ** 6) if r.random() < 0.8 else None
